@@ -407,7 +407,7 @@ Definition pass_size (m : passthrough) : N := lenN (ps_payload m).
 
 Definition nthb (l : list N) (i : nat) : N := nth i l 0.
 
-(* ParseCEA608(payload): Panic = index out of range *)
+(* ParseCEA608(payload) (repaired text, /repo 9efafe9: an empty payload is an error) *)
 Fixpoint cea608_loop (k : nat) (pl : list N) (pos : nat) (f1 f2 : list N) : res (list N * list N) :=
   match k with
   | O => Ok (f1, f2)
@@ -429,13 +429,13 @@ Fixpoint cea608_loop (k : nat) (pl : list N) (pos : nat) (f1 f2 : list N) : res 
   end.
 Definition parse_cea608 (pl : list N) : res (list N * list N) :=
   match pl with
-  | [] => Panic
+  | [] => Err
   | b :: _ => cea608_loop (N.to_nat (N.land b 31)) pl 2 [] []
   end.
 
-(* DecodeUserDataRegisteredSEI *)
+(* DecodeUserDataRegisteredSEI (repaired text: payloads shorter than the 8-byte header are an error) *)
 Definition decode_registered (pl : list N) : res passthrough :=
-  if (length pl <? 8)%nat then Panic
+  if (length pl <? 8)%nat then Err
   else
     let is608 := (nthb pl 0 =? 181) && (be_val (firstn 2 (skipn 1 pl)) 0 =? 49) &&
                  (be_val (firstn 4 (skipn 3 pl)) 0 =? 1195456820) && (nthb pl 7 =? 3) in
@@ -444,18 +444,32 @@ Definition decode_registered (pl : list N) : res passthrough :=
       Ok (mkPass (KCea608 f1 f2) pl)
     else Ok (mkPass KRegistered pl).
 
-(* DecodeUserDataUnregisteredSEI *)
+(* DecodeUserDataUnregisteredSEI (repaired text: payloads shorter than the UUID are an error) *)
 Definition decode_unregistered (pl : list N) : res passthrough :=
-  if (length pl <? 16)%nat then Panic
+  if (length pl <? 16)%nat then Err
   else Ok (mkPass (KUnregistered (firstn 16 pl)) pl).
 
-(* DecodePicTimingHevcSEI(sd, exPar): outcome class only (the decoded fields are not part of the
-   property; the payload is kept).  It reads the rbsp payload through an EBSPReader. *)
+(* DecodePicTimingHevcSEI(sd, exPar) (repaired text, /repo 2b4b54d): outcome class only (the decoded
+   fields are not part of the property; the payload is kept).  It reads the rbsp payload through an
+   EBSPReader.  The sub-picture loop runs i = 0..NumDecodingUnitsMinus1 and stops at the first read
+   error; every iteration without error consumes at least one bit, hence the fuel. *)
 Record hevc_par := mkHevcPar {
   hp_ffi : bool; hp_cpb : bool; hp_subpic : bool; hp_subpic_in_pt : bool;
-  hp_au_len1 : N; hp_dpb_len1 : N; hp_du_len1 : N
+  hp_au_len1 : N; hp_dpb_len1 : N; hp_du_len1 : N; hp_inc_len1 : N
 }.
-Definition decode_pic_timing_hevc (par : hevc_par) (pl : list N) : res passthrough :=
+
+Fixpoint du_loop (fuel : nat) (s : rstate) (i num : N) (common : bool) (incw : N) : res rstate :=
+  match fuel with
+  | O => OutOfFuel
+  | S f =>
+      if num <? i then Ok s
+      else
+        let s1 := snd (read_ue s) in
+        let s2 := if negb common && (i <? num) then snd (read s1 incw) else s1 in
+        if rerr s2 then Ok s2 else du_loop f s2 (i + 1) num common incw
+  end.
+
+Definition hevc_final (par : hevc_par) (pl : list N) : res rstate :=
   let s0 := rinit pl in
   let s1 := if hp_ffi par
             then snd (read (snd (read (snd (read s0 4)) 2)) 1) else s0 in
@@ -463,7 +477,16 @@ Definition decode_pic_timing_hevc (par : hevc_par) (pl : list N) : res passthrou
     let s2 := snd (read (snd (read s1 (hp_au_len1 par + 1))) (hp_dpb_len1 par + 1)) in
     if hp_subpic par then
       let s3 := snd (read s2 (hp_du_len1 par + 1)) in
-      if hp_subpic_in_pt par then Panic   (* pt.NumNalusInDuMinus1[0] on a nil slice *)
-      else if rerr s3 then Err else Ok (mkPass KPicTimingHevc pl)
-    else if rerr s2 then Err else Ok (mkPass KPicTimingHevc pl)
-  else if rerr s1 then Err else Ok (mkPass KPicTimingHevc pl).
+      if hp_subpic_in_pt par then
+        let '(nu, s4) := read_ue s3 in
+        let num := u32 nu in
+        let '(common, s5) := read_flag s4 in
+        let s6 := if common then snd (read s5 (hp_inc_len1 par + 1)) else s5 in
+        du_loop (S (8 * length pl + 8)) s6 0 num common (hp_inc_len1 par + 1)
+      else Ok s3
+    else Ok s2
+  else Ok s1.
+
+Definition decode_pic_timing_hevc (par : hevc_par) (pl : list N) : res passthrough :=
+  do s <- hevc_final par pl;
+  if rerr s then Err else Ok (mkPass KPicTimingHevc pl).
